@@ -141,6 +141,16 @@ def cases(draw):
         if op in ('rb', 'wb'):
             addr = (addr * w) % U64 if d.pct() < 80 else addr  # op bit-address
         acc.append([d.choice([0, 0, 1, 2, 3, d.int(1, 12)]), op, addr, d.int(0, (1 << w) - 1) if d.pct() < 80 else d.int(0, U64 - 1)])
+    if d.pct() < 15:
+        # many distinct far pages (a pure function of two drawn numbers): the page table grows, collision chains
+        # form, reach the last bucket and wrap
+        sd, npages = d.int(0, (1 << 30) - 1), d.choice([12, 24, 40, 70])
+        span = d.choice([1 << 10, 1 << 20, 1 << 36, 1 << 50])
+        for _ in range(npages):
+            sd = (sd * 6364136223846793005 + 1442695040888963407) & (U64 - 1)
+            page = (sd >> 13) % span
+            acc.append([(sd >> 5) % 3, 'ww' if (sd >> 7) % 4 else 'rw', ((page << 14) + ((sd >> 40) % (1 << 14))) % U64, (sd >> 20) & ((1 << w) - 1)])
+        img['scatter'] = npages
     img['accesses'] = acc
     return img
 
@@ -204,5 +214,7 @@ def run_case(case):
         cl.append('device access outside segments')
     if case['accesses']:
         cl.append('device accesses')
+    if case.get('scatter'):
+        cl.append('page scatter >= %d pages' % (40 if case['scatter'] >= 40 else 12))
     nt = ops >= 4 and (len(modes) >= 2 or outside > 0)
     return Ok(sorted(set(cl)), nt)
